@@ -56,14 +56,14 @@ Definition has_suffix_semi (s : string) : bool :=
 (* parseOperand *)
 Definition operand_text (bexf : jval -> Z -> res (string * bool)) (noWrap negation : bool) (x : jval) : res string :=
   match x with
-  | JStr s => Ok s
+  | JStr s => Ok (if negation then ("!(" ++ s ++ ")")%string else s)
   | JNum z => Ok (show_z z)
-  | JBool b => Ok (bool_text b)
+  | JBool b => Ok (if negation then ("!(" ++ bool_text b ++ ")")%string else bool_text b)
   | JObj _ =>
       match bexf x 0 with
       | Ok (e, nw) =>
-          if nw || noWrap then Ok e
-          else if negation then Ok ("!(" ++ e ++ ")")%string
+          if negation then Ok ("!(" ++ e ++ ")")%string     (* the lone operand of "not", whatever its form *)
+          else if nw || noWrap then Ok e
           else Ok ("(" ++ e ++ ")")%string
       | Err => Err
       | Panic => Panic
@@ -110,7 +110,11 @@ Fixpoint bex (j : jval) (depth : Z) {struct j} : res (string * bool) :=
           match value with
           | JArr [] => Err
           | JArr l =>
-              match map_res (operand_text bex false (String.eqb optext " != ")) l with
+              (* a single operand is only meaningful for "not", whose lone operand is negated;
+                 with two or more operands "not" is the != operator *)
+              let lone := Nat.eqb (List.length l) 1 in
+              if lone && negb (String.eqb optext " != ") then Err else
+              match map_res (operand_text bex false (String.eqb optext " != " && lone)) l with
               | Ok es => Ok (str_join optext es, false)
               | Err => Err
               | Panic => Panic
@@ -304,6 +308,10 @@ Definition join_exprs (o : op) (l : list expr) : expr :=
 
 (* x_top d x: buildExpressionEx(x, d) for an object-valued x (d = true: depth > 0);
    x_opnd neg x: parseOperand(x, false, neg);  x_arg x: parseCallOperand / set operand (no wrapping) *)
+(* a lone operand of "not" is negated, whatever its form (a plain number is left as it is) *)
+Definition neg_flag (o : jop) (args : jxs) : bool :=
+  match o, args with JNe, XCons _ XNil => true | _, _ => false end.
+
 Fixpoint x_top (deep : bool) (x : jx) : expr :=
   match x with
   | XPlain a => EAtom a
@@ -317,7 +325,7 @@ Fixpoint x_top (deep : bool) (x : jx) : expr :=
       if is_compound o then
         let body := join_exprs (jop_op o) (xs_elems args) in
         if deep then EParen false body else body
-      else join_exprs (jop_op o) (xs_opnds (match o with JNe => true | _ => false end) args)
+      else join_exprs (jop_op o) (xs_opnds (neg_flag o args) args)
   | XCall h args => EAtom (call_atom h (xs_args args))
   end
 with xs_elems (l : jxs) : list expr :=            (* elements of and / or: built one level deeper *)
@@ -328,7 +336,8 @@ with xs_opnds (neg : bool) (l : jxs) : list expr :=
   | XCons x l' =>
       (match x with
        | XOp _ _ => EParen neg (x_top false x)
-       | _ => x_top false x
+       | XNum _ => x_top false x                  (* a number is left as it is *)
+       | _ => if neg then EParen true (x_top false x) else x_top false x
        end) :: xs_opnds neg l'
   end
 with xs_args (l : jxs) : elist :=
@@ -343,13 +352,13 @@ Definition st_of (t : jst) : stmt :=
 
 Definition cond_of (w : jcond) : expr := match w with WPlain e => e | WTree x => x_top false x end.
 
-(* description: the listener keeps the text between the quotes, i.e. the escaped form *)
 Definition rule_of (r : trule) : rule :=
-  {| rname := tname r; rdesc := quote_body (tdesc r); rsal := tsal r; rwhen := cond_of (twhen r);
+  {| rname := tname r; rdesc := tdesc r; rsal := tsal r; rwhen := cond_of (twhen r);
      rthen := map st_of (tthen r) |}.
 
 (* ---- the operator tree with operands grouped exactly as they are nested:
-        no brackets at all; a one-operand "not" is logical negation ---- *)
+        no brackets at all; a lone operand of "not" is logically negated, with two or
+        more operands "not" is != ---- *)
 Fixpoint jtree (x : jx) : expr :=
   match x with
   | XPlain a => EAtom a
@@ -361,7 +370,7 @@ Fixpoint jtree (x : jx) : expr :=
   | XConstB b => EAtom (AConst (CBool b))
   | XOp o args =>
       match o, args with
-      | JNe, XCons (XOp _ _ as y) XNil => EParen true (jtree y)
+      | JNe, XCons y XNil => EParen true (jtree y)
       | _, _ => join_exprs (jop_op o) (jtrees args)
       end
   | XCall h args => EAtom (call_atom h (jargs args))
